@@ -91,6 +91,23 @@ macro_rules! field_checks {
         let reals = [-2.5, -0.625, 0.3125, 0.75, 1.25, 2.0];
         let xs = operands::<F>(l, &reals, 0);
         let ys = operands::<F>(l, &[-1.25, 0.5, 1.5, 0.0, -0.0], l.nslots());
+        // predicates on special values: non-finite real parts, and finite real parts carrying
+        // non-finite derivative parts (e.g. sqrt of a seeded zero) - the real part alone decides
+        for re in [1.5, 0.0, -0.0, f64::INFINITY, f64::NEG_INFINITY, f64::NAN] {
+            for dv in [0.75, f64::INFINITY, f64::NEG_INFINITY, f64::NAN] {
+                for pat in 0..(1usize << l.ngroups()) {
+                    let present: Vec<bool> = (0..l.ngroups()).map(|i| pat & (1 << i) == 0).collect();
+                    let px = Parts::<F> { vals: (0..l.nslots()).map(|i| (if i == 0 { re } else { dv }) as F).collect(), present };
+                    let x: D = <D as Subject<F>>::build(d, &px);
+                    let xf = re as F;
+                    $st.evaluations += 3;
+                    $st.state(hash64(&(tn.as_str(), "predicates", px.bits(), px.present.clone())));
+                    if ComplexField::is_finite(&x) != xf.is_finite() || RealField::is_sign_positive(&x) != xf.is_sign_positive() || RealField::is_sign_negative(&x) != xf.is_sign_negative() {
+                        $st.violation(Violation { sig: format!("method predicates {tn} special values"), case: json!({"type": tn, "x": parts_to_json(&px)}), what: format!("is_finite / is_sign_* not decided by the real part {re:e} (derivative parts {dv:e})") });
+                    }
+                }
+            }
+        }
         type Un = (&'static str, fn(f64) -> bool, fn(D) -> D, fn(&D) -> D, fn(F) -> F, bool);
         let all = |_: f64| true;
         let pos = |x: f64| x > 0.0;
